@@ -129,4 +129,25 @@ macro_rules! gen_observe {
 }
 
 for_each_kind!(gen_observe);
+
+/// number -> typed value, for the Builder glue
+pub trait FromWord: Sized {
+    const KIND: &'static str;
+    fn from_word(w: u32) -> Option<Self>;
+}
+
+macro_rules! gen_from_word {
+    (masks: [$(($mk:ident, $mm:ident)),*], enums: [$(($ek:ident, $em:ident)),*]) => {
+        $( impl FromWord for spirv::$mk { const KIND: &'static str = stringify!($mk); fn from_word(w: u32) -> Option<Self> { spirv::$mk::from_bits(w) } } )*
+        $( impl FromWord for spirv::$ek { const KIND: &'static str = stringify!($ek); fn from_word(w: u32) -> Option<Self> { spirv::$ek::from_u32(w) } } )*
+    };
+}
+for_each_kind!(gen_from_word);
+
+impl FromWord for spirv::Op {
+    const KIND: &'static str = "LiteralSpecConstantOpInteger";
+    fn from_word(w: u32) -> Option<Self> {
+        spirv::Op::from_u32(w)
+    }
+}
 pub(crate) use for_each_kind;
